@@ -5,7 +5,7 @@
    while the domain is listed; locals on the domain after the last @; then full address,
    domain, dot-suffixes from longest to shortest, catch-all; empty tag = remote; lookups
    case-insensitive). *)
-From NQ Require Import Send.Route Send.RouteProofs.
+From NQ Require Import Send.Route Send.RouteProofs Send.RouteCorollaries.
 Local Open Scope N_scope.
 
 (* for every configuration and every recipient (any bytes, any number of @ and %) *)
@@ -20,6 +20,44 @@ Theorem senderadd_verp : forall owner host box rhost,
   owner ++ box ++ [EQS] ++ rhost ++ [AT] ++ host.
 Proof. exact senderadd_verp_l. Qed.
 Print Assumptions senderadd_verp.
+
+(* ---- the documented rules one by one, as corollaries of rewrite = route_spec (Send/RouteCorollaries.v) ----
+   pct_idle c box dom: the percent hack does not fire (domain not listed, or no % in the box part) *)
+Theorem local_domain_wins : forall c box dom,
+  no_at dom -> pct_idle c box dom -> cm_has (locals c) dom = true ->
+  rewrite c (box ++ AT :: dom) = Local (box ++ AT :: dom).
+Proof. exact local_domain_wins_l. Qed.
+Print Assumptions local_domain_wins.
+(* most specific virtual-domain entry first: full address, domain, dot-suffixes longest first, catch-all *)
+Theorem vdom_priority : forall c box dom,
+  no_at dom -> pct_idle c box dom -> cm_has (locals c) dom = false ->
+  let addr := box ++ AT :: dom in
+  rewrite c addr =
+  match first_key c ([addr; dom] ++ dot_suffixes dom ++ [[]]) with
+  | Some [] => Remote addr
+  | Some x => Local (x ++ [DASH] ++ addr)
+  | None => Remote addr
+  end.
+Proof. exact vdom_priority_l. Qed.
+Print Assumptions vdom_priority.
+Theorem default_host : forall c recip,
+  no_at recip -> no_at (envnoathost c) -> rewrite c recip = rewrite c (recip ++ AT :: envnoathost c).
+Proof. exact default_host_l. Qed.
+Print Assumptions default_host.
+(* one step of the percent hack: the LAST % becomes the @ when the domain is listed *)
+Theorem percent_hack_step : forall c b d2 dom,
+  no_at dom -> cm_has (percenthack c) dom = true -> no_pct d2 -> no_at d2 ->
+  rewrite c (b ++ PCT :: d2 ++ AT :: dom) = rewrite c (b ++ AT :: d2).
+Proof. exact percent_hack_l. Qed.
+Print Assumptions percent_hack_step.
+(* matching ignores the case of the domain *)
+Theorem routing_ignores_domain_case : forall c box dom dom',
+  no_at dom -> pct_idle c box dom -> lowers dom = lowers dom' ->
+  exists loc pre, rewrite c (box ++ AT :: dom) = mk_route loc (pre ++ box ++ AT :: dom) /\
+                  rewrite c (box ++ AT :: dom') = mk_route loc (pre ++ box ++ AT :: dom') /\
+                  (pre = [] \/ exists x, x <> [] /\ pre = x ++ [DASH] /\ loc = true).
+Proof. exact case_insensitive_l. Qed.
+Print Assumptions routing_ignores_domain_case.
 
 Example rewrite_nonvacuous :
   let c := {| envnoathost := [100]; locals := [[108]]; percenthack := [[104]];
